@@ -54,6 +54,26 @@ def _raise_for_status_with_body(response: httpx.Response) -> None:
         raise
 
 
+async def _iter_sse_lines(response: httpx.Response) -> AsyncIterator[str]:
+    """
+    Yield the lines of a Server-Sent Events body, split on line feeds only.
+
+    ``httpx.Response.aiter_lines`` splits like ``str.splitlines``, i.e. also on
+    U+0085, U+2028, U+2029 and a few control characters. Those may appear
+    unescaped inside the JSON of a ``data:`` line and would cut the event in
+    two. An SSE line ends with a line feed; a preceding carriage return is
+    removed by the caller's ``strip()``.
+    """
+    buffer = ""
+    async for text in response.aiter_text():
+        buffer += text
+        *lines, buffer = buffer.split("\n")
+        for line in lines:
+            yield line
+    if buffer:
+        yield buffer
+
+
 @dataclass(frozen=True)
 class _QueuedEvent:
     sequence: int | Literal["now"]
@@ -387,7 +407,7 @@ class WorkflowClient:
 
                                 # Parse SSE stream: "id: N\ndata: {...}\n\n"
                                 current_id: str | None = None
-                                async for line in response.aiter_lines():
+                                async for line in _iter_sse_lines(response):
                                     stripped = line.strip()
                                     if not stripped:
                                         # Empty line = end of SSE event
